@@ -56,6 +56,10 @@ def run(chk):
         "free": "F",
         "getA": "G " + A,
     }
+    # a list whose first member resolves and whose second exists nowhere: the lookup fails in the resolver, before any file
+    # is opened; used in pairs and in the random sequences (not in the exhaustive triples)
+    AMISS = A + ",no-such-table-anywhere.utb"
+    extra_ops = {"useAmissing": "Y %s ;; %s" % (AMISS, trans.case_line("T", 4, inp, 20))}
     name_of = {"useA": A, "useB": B, "useApfx": APFX, "useBad": BAD, "useFin": FIN, "addA": A, "addAbad": A, "addAdisp": A, "backA": A, "backB": B, "hyph": HY, "getA": A}
     keys = list(ops)
     seqs = []
@@ -63,6 +67,11 @@ def run(chk):
     for L in range(1, maxlen + 1):
         for tup in itertools.product(keys, repeat=L):
             seqs.append(list(tup))
+    ops.update(extra_ops)
+    name_of["useAmissing"] = AMISS
+    for k in keys:
+        seqs += [["useAmissing", k], [k, "useAmissing"], [k, "useAmissing", "free"]]
+    keys = list(ops)
     r = rng
     for _ in range(150 if quick else 5000):
         seqs.append([r.choice(keys) for _ in range(r.range(5, 40))])
@@ -120,7 +129,11 @@ def run(chk):
                     break
                 continue
             # a lookup
-            if n == BAD:
+            if n == AMISS:
+                if opens != 0:
+                    bad = ("unresolved-list-opened", "a list with a member that exists nowhere opened %d files at step %d of %s" % (opens, i, seq))
+                    break
+            elif n == BAD:
                 if opens == 0:
                     bad = ("bad-list-cached", "a list that does not compile was not re-read at step %d of %s" % (i, seq))
                     break
@@ -158,7 +171,7 @@ def run(chk):
     chk.cov["exhaustive_up_to_length"] = maxlen
     chk.cov["rule"] = ("all sequences up to length %d over 13 operations {use A, use B (multipass, both directions), use a list that compiles but is rejected by the finalisation, use list A+shared (A's name is a prefix, shares a file with B), "
                        "use a list that does not compile, add a valid / an invalid / a display rule to A, back-translate with A, hyphenate, lou_getTable(A), "
-                       "lou_free} plus random sequences of 5-40; observed: files opened per step (hook), pointer identity, lou_compileString "
+                       "lou_free}, a list with an unresolvable second member in pairs with each of them, plus random sequences of 5-40 over all 14; observed: files opened per step (hook), pointer identity, lou_compileString "
                        "results, every result vs a fresh process with the same accepted additions, LeakSanitizer at exit; distinct = sequence" % maxlen)
     chk.cov["gen_status"] = gen
     chk.cov["checker_cmd"] = "make -C coq Properties/C14.vo (coqc 8.16.1)"
